@@ -327,6 +327,27 @@ impl Precedence for Format<'_, Formula> {
     }
 }
 
+fn ends_with_comparison(formula: &Formula) -> bool {
+    match formula {
+        Formula::AtomicFormula(AtomicFormula::Comparison(_)) => true,
+        // a propositional atom reads like a symbolic constant, i.e. like the start of a comparison
+        Formula::AtomicFormula(AtomicFormula::Atom(a)) => a.terms.is_empty(),
+        Formula::AtomicFormula(_) => false,
+        Formula::UnaryFormula { formula, .. } | Formula::QuantifiedFormula { formula, .. } => {
+            ends_with_comparison(formula)
+        }
+        Formula::BinaryFormula { rhs, .. } => ends_with_comparison(rhs),
+    }
+}
+
+fn starts_with_comparison(formula: &Formula) -> bool {
+    match formula {
+        Formula::AtomicFormula(AtomicFormula::Comparison(_)) => true,
+        Formula::BinaryFormula { lhs, .. } => starts_with_comparison(lhs),
+        _ => false,
+    }
+}
+
 impl Display for Format<'_, Formula> {
     fn fmt(&self, f: &mut Formatter<'_>) -> fmt::Result {
         match self.0 {
@@ -346,6 +367,22 @@ impl Display for Format<'_, Formula> {
                     }
                     _ => self.fmt_unary(Format(formula.as_ref()), f),
                 }
+            }
+            Formula::BinaryFormula {
+                connective: BinaryConnective::ReverseImplication,
+                lhs,
+                rhs,
+            } if ends_with_comparison(lhs) && starts_with_comparison(rhs) => {
+                // `F <- G` needs parentheses around G when F ends with a term and G starts
+                // with one: `X = 1 <- 3 = Y` would be read as the comparison `X = 1 < -3 = Y`.
+                let lhs = Format(lhs.as_ref());
+                if lhs.mandatory_parentheses() || self.precedence() < lhs.precedence() {
+                    write!(f, "({lhs})")?;
+                } else {
+                    write!(f, "{lhs}")?;
+                }
+                self.fmt_operator(f)?;
+                write!(f, "({})", Format(rhs.as_ref()))
             }
             Formula::BinaryFormula { lhs, rhs, .. } => {
                 self.fmt_binary(Format(lhs.as_ref()), Format(rhs.as_ref()), f)
